@@ -11,11 +11,8 @@ DRIVER = Driver("driver_c03", "Drivers/C03.lean")
 CMP_KEYS = ("tx", "direct", "b", "d")
 
 
-def evaluate(case: dict):
-    """run one case on the implementation and on the model; -> dict with everything the verdict needs"""
-    trace, stats = txhist.execute(case)
+def _assemble(case: dict, trace, stats, answers) -> dict:
     lines = [l for l, _ in trace]
-    answers = DRIVER.ask(txhist.model_lines(trace))[1:]
     impl = [txhist.fields(o) for _, o in trace]
     model = [txhist.fields(a) for a in answers]
     if any(a.startswith("bad-op") for a in answers):
@@ -35,6 +32,26 @@ def evaluate(case: dict):
         "model_bad": txhist.check_property(lines, model, ndc),
         "trace": trace, "answers": answers,
     }
+
+
+def evaluate_many(cases: list[dict]) -> list[dict]:
+    """run the cases on the implementation, then all of them on the model in ONE driver process"""
+    runs = [txhist.execute(c) for c in cases]
+    lines: list[str] = []
+    for trace, _ in runs:
+        lines.extend(txhist.model_lines(trace))
+    answers = DRIVER.ask(lines) if lines else []
+    out, pos = [], 0
+    for case, (trace, stats) in zip(cases, runs):
+        n = len(trace) + 1
+        out.append(_assemble(case, trace, stats, answers[pos + 1:pos + n]))
+        pos += n
+    return out
+
+
+def evaluate(case: dict):
+    """run one case on the implementation and on the model; -> dict with everything the verdict needs"""
+    return evaluate_many([case])[0]
 
 
 def verdict(ev: dict, prop: str):
@@ -119,7 +136,7 @@ TRUSTED = [
 
 def run_prop(chk: Check, prop: str) -> int:
     proof = proof_stage(prop, "driver_c03", chk.thorough) if not getattr(chk, "skip_proof", False) else None
-    n = chk.budget(2400, 40000)
+    n = chk.budget(16000, 200000)
     cases = [("corpus:" + name, c) for name, c in corpus_cases(prop)]
     ncorpus = len(cases)
     for i in range(n):
@@ -138,32 +155,38 @@ def run_prop(chk: Check, prop: str) -> int:
     nseg = nseg_ndc = 0
     prop_hits: list = []
     corr_hits: list = []
-    for origin, case in cases:
-        ev = evaluate(case)
-        evaluations += 1
-        if ev["model_bad"]:
-            raise HarnessError(f"the model itself contradicts the property on {case}: {ev['model_bad'][0]}")
-        for l in ev["lines"]:
-            w = l.split()
-            if w[0] == "init":
-                continue
-            name = w[0] + ("_" + w[4] if w[0] == "set" else "") + ("_" + w[1] if w[0] in ("enter", "exit") else "")
-            hist[name] = hist.get(name, 0) + 1
-        nseg += len(ev["ndc"])
-        nseg_ndc += sum(ev["ndc"].values())
-        for k in ev["stats"]:
-            interesting[k] = interesting.get(k, 0) + 1
-        if ev["stats"]:
-            distinct.add(json.dumps(case, sort_keys=True))
-        if len(samples) < 3 and len(ev["stats"]) >= 3 and len(case["events"]) <= 12:
-            samples.append({"case": case, "impl": [o for _, o in ev["trace"]]})
-        v = verdict(ev, prop)
-        if v is not None:
-            # SEARCH (DESIGN section 5): a broken correspondence alone is not yet a failing input of the property;
-            # keep looking through the budget for a case on which the implementation contradicts the statement
-            (prop_hits if v[0] == "property" else corr_hits).append((origin, case))
-            if len(prop_hits) >= 3 or (len(corr_hits) >= 40 and not prop_hits):
-                break
+    BATCH = 250
+    stop = False
+    for start in range(0, len(cases), BATCH):
+        if stop:
+            break
+        chunk = cases[start:start + BATCH]
+        for (origin, case), ev in zip(chunk, evaluate_many([c for _, c in chunk])):
+            evaluations += 1
+            if ev["model_bad"]:
+                raise HarnessError(f"the model itself contradicts the property on {case}: {ev['model_bad'][0]}")
+            for l in ev["lines"]:
+                w = l.split()
+                if w[0] == "init":
+                    continue
+                name = w[0] + ("_" + w[4] if w[0] == "set" else "") + ("_" + w[1] if w[0] in ("enter", "exit") else "")
+                hist[name] = hist.get(name, 0) + 1
+            nseg += len(ev["ndc"])
+            nseg_ndc += sum(ev["ndc"].values())
+            for k in ev["stats"]:
+                interesting[k] = interesting.get(k, 0) + 1
+            if ev["stats"]:
+                distinct.add(json.dumps(case, sort_keys=True))
+            if len(samples) < 3 and len(ev["stats"]) >= 3 and len(case["events"]) <= 12:
+                samples.append({"case": case, "impl": [o for _, o in ev["trace"]]})
+            v = verdict(ev, prop)
+            if v is not None:
+                # SEARCH (DESIGN section 5): a broken correspondence alone is not yet a failing input of the property;
+                # keep looking through the budget for a case on which the implementation contradicts the statement
+                (prop_hits if v[0] == "property" else corr_hits).append((origin, case))
+                if len(prop_hits) >= 3 or (len(corr_hits) >= 40 and not prop_hits):
+                    stop = True
+                    break
     for origin, case in (prop_hits[:3] or corr_hits[:2]):
         found += 1
         report(chk, case, prop, origin)
